@@ -645,6 +645,11 @@ pub fn huge_ops(seed: u64) -> Vec<crate::model::Op> {
 /// and everything between them reversed (1 500 nodes each). Position in the hub's adjacency list
 /// and node index are then related in a different way each time.
 pub fn star_graph(kind: u8, directed: bool) -> NormGraph {
+    if kind == 8 {
+        // not a star: the complete graph on 1 100 nodes (every node is a hub of 1 099 neighbours,
+        // all adjacency lists have the same length), weights 1 + (i-j)^2 / 4
+        return crate::graphcase::dense_structured(1_100, directed, 1);
+    }
     let n: usize = if kind == 4 { 10_000 } else { 1_500 };
     let mut leaves: Vec<usize> = (1..n).collect();
     match kind {
